@@ -100,6 +100,13 @@ class Ctx:
         self.undecided = []
         self.broken = []
         self.level = "other"
+        try:
+            man = json.loads((ROOT / "MANIFEST.json").read_text())
+            for chk in man.get("checks", []):
+                if chk.get("property_id") == prop:
+                    self.level = chk["level_claimed"]["category"]
+        except Exception:
+            pass
         self.explanation = ""
         self._known = json.loads(KNOWN.read_text()) if KNOWN.exists() else []
 
